@@ -76,11 +76,10 @@ _FORM = [0]
 
 
 def as_value(x, form):
-    """the observation as a caller may hand it over: Python float, Python int /
+    """the observation as a caller may hand it over: Python float, numpy float32 (exact for the small dyadic values), Python int /
     numpy integer / bool when the value is integral, a 1-element list / array / 1x1 array — equal values, equal statistics"""
-    # (np.float32 observations are NOT used: under numpy 2's promotion rules ADWIN then computes parts of its statistics in single
-    #  precision -- variance() = -6.5e-6 on the window [16.0] -- which is rounding at the precision the caller chose, not a
-    #  question of which inputs the statistics describe)
+    if form == 1 and abs(x) < 2 ** 16:
+        return np.float32(x)       # exact for the small dyadic values (before repo fix 4ec4f35 ADWIN then computed in single precision)
     if form == 2 and x == int(x) and abs(x) < 2 ** 53:
         return int(x)
     if form == 3 and x == int(x) and abs(x) < 2 ** 31:
@@ -358,6 +357,21 @@ def run(ctx):
         lines.extend("reset" if isinstance(it, str) else "u " + core.f2b(it) for it in items)
         reset_cases.append((cfg, xs, items, tr, (start, len(lines))))
         spans.append((start, len(lines)))
+    # (e) regression witnesses of repaired defects: observations of large magnitude handed over as np.int32 (the running total
+    # wrapped around before repo fix 4ec4f35), float32 observations around a cut
+    for wform, wxs in ((3, [-134217726.0] * 17 + [-134217720.0] * 6), (3, [2.0 ** 30 - 8.0] * 9 + [5.0] * 4), (1, [0.0] * 5 + [1.0, 16.0, 16.0])):
+        cfg = {"delta": 1.0, "max_buckets": 1, "new_sample_thresh": 1, "window_size_thresh": 5, "subwindow_size_thresh": 4, "conservative_bound": False}
+        tr = impl_trace(lambda: adwin_mod.ADWIN(**cfg), lambda d, it, f=wform: d.update(as_value(it, f)), wxs)
+        lines.append(new_line("adwin", cfg))
+        start = len(lines)
+        lines.extend("u " + core.f2b(it) for it in wxs)
+        reset_cases.append((cfg, wxs, list(wxs), tr, (start, len(lines))))
+        spans.append((start, len(lines)))
+        bad = check_trace(cfg, wxs, tr)
+        if bad is not None:
+            ctx.fail(signature={"class": bad[0]}, what="property clause fails on the implementation (independent of the model): observations in a narrow numeric dtype",
+                     detector="adwin", config=cfg, step=bad[1], detail=bad[2], stream=wxs[: bad[1] + 1], value_form=wform)
+        ctx.count("dtype-witness-cases")
     out = core.run_driver(lines)
     for (s, e) in spans:
         if out[s - 1] != "ok":
